@@ -209,6 +209,8 @@ func runC01(p *Plan) *Result {
 			return []string{"err-before", "err-after"}
 		case site == "idp.token":
 			return []string{"reset-before", "reset-after", "500"}
+		case site == "net.dial":
+			return []string{"refused"}
 		default:
 			return []string{"err"}
 		}
